@@ -309,8 +309,8 @@ def _ridge_factor(draw, n, x, unary, max_leaves):
 @st.composite
 def mv_cases(draw, n=st.integers(1, 8), m=st.integers(1, 6), kinds=('affine', 'quadratic', 'ridge'),
              containers=('0d', 'len1', 'vec', 'mat'), kmax=4, unary=tuple(exprs.UNARY_C01),
-             products=True, max_pool=3, max_leaves=3, max_terms=2):
-    """Strategy for {'prog': prog, 'x': x, 'kind': kind}.
+             products=True, max_pool=3, max_leaves=3, max_terms=2, int_x=False):
+    """Strategy for {'prog': prog, 'x': x, 'kind': kind, 'x_int': x_int}.
 
     kind 'affine': A x + b with dense asymmetric A;  'quadratic': A x + b + x'Qx/2 with pairwise
     different off-diagonal Q entries;  'ridge': 1..max_terms ridge terms (products of two factors with
@@ -325,6 +325,11 @@ def mv_cases(draw, n=st.integers(1, 8), m=st.integers(1, 6), kinds=('affine', 'q
     else:
         mm = draw(m) if not isinstance(m, int) else m
     x = draw(points(nn))
+    x_int = False
+    if int_x and draw(st.integers(0, 5)) == 0:
+        # integer-valued point (the documentation calls Hessian / Gradient with lists of Python ints)
+        x_int = True
+        x = [float(draw(st.integers(1, 100)) * draw(st.sampled_from([-1, 1]))) for _ in range(nn)]
     pool = []
     if kind == 'ridge':
         npool = draw(st.integers(1, max_pool))
@@ -363,7 +368,7 @@ def mv_cases(draw, n=st.integers(1, 8), m=st.integers(1, 6), kinds=('affine', 'q
         k = draw(st.integers(1, kmax))
         prog['B'] = [draw(coefs(-0.5, 0.5)) for _ in range(k)]
         prog['E'] = [draw(coefs(-0.5, 0.5)) if (mm > 1 and draw(st.booleans())) else 0.0 for _ in range(k)]
-    return {'prog': prog, 'x': x, 'kind': kind}
+    return {'prog': prog, 'x': x, 'kind': kind, 'x_int': x_int}
 
 
 # --------------------------------------------------------------------------------------
